@@ -1,13 +1,18 @@
 package checks
 
 import (
+	"bytes"
 	"context"
 	"encoding/json"
 	"errors"
 	"fmt"
+	"os"
+	"os/exec"
+	"path/filepath"
 	"regexp"
 	"sort"
 	"strings"
+	"time"
 
 	"github.com/indexsupply/shovel/shovel"
 	"github.com/indexsupply/shovel/shovel/config"
@@ -260,15 +265,26 @@ type c16Scen struct {
 	shared bool
 	// userUnique[ig]
 	special string
+	// emptyData: the chain holds logs of the declared event without data; refusing the batch is one legitimate
+	// answer (nothing is stored), storing rows is the other (then the key rules apply to them)
+	emptyData bool
 }
 
-func c16Chain(r *vk.RNG, decls []*model.Decl, abi gen.ABIOpts) *simnode.Chain {
+func c16Chain(r *vk.RNG, decls []*model.Decl, abi gen.ABIOpts, emptyData bool) *simnode.Chain {
 	addrs := [][]byte{r.Bytes(20), r.Bytes(20)}
 	co := gen.ChainOpts{Seed: r.U64(), MinTxs: 2, MaxTxs: 3, MaxLogs: 4, MinTraces: 2, MaxTraces: 3}
 	for _, d := range decls {
 		if d.Mode() == model.ModeLog {
 			t := gen.TargetMaker(d, addrs, abi)
 			co.Makers = append(co.Makers, t, t, t)
+			if emptyData {
+				// a log of the declared event (same first topic, same number of topics) that carries no data
+				co.Makers = append(co.Makers, func(r *vk.RNG) simnode.Log {
+					l := t(r)
+					l.Data = nil
+					return l
+				})
+			}
 		}
 	}
 	if len(co.Makers) > 0 {
@@ -374,7 +390,8 @@ func nullKeyColumns(pg *fakepg.Server, table, src, ig string, key []string) (res
 					}
 				}
 			}
-			if n > 0 && nulls == n {
+			// one NULL in a key column is enough: that row never collides with its own re-insert
+			if n > 0 && nulls > 0 {
 				res = append(res, col)
 			}
 		}
@@ -513,6 +530,8 @@ func (s *c16Scen) firstPass() (done map[string]bool) {
 					st := sqlstate(es)
 					ex := map[string]any{"pair": name, "error": firstLines(es, 3), "mode": d.Mode().String()}
 					switch {
+					case s.emptyData && strings.Contains(es, "un-indexed data"):
+						c.Obs("empty_data_logs_refused", 1)
 					case strings.Contains(es, "filter using reference"):
 						c.Seen("beyond_statement", "reference lookup fails: "+st)
 					case st == "23505":
@@ -657,6 +676,64 @@ func (s *c16Scen) reinsert(t *shovel.Task) {
 // column an integration writes exists under the name COPY will use.
 func (s *c16Scen) printSchema() {
 	c := s.c
+	var stmts []string
+	func() {
+		defer func() {
+			if r := recover(); r != nil {
+				s.violate("panic:config.DDL", map[string]any{"panic": fmt.Sprint(r)}, "config.DDL panicked: %v", r)
+			}
+		}()
+		stmts = config.DDL(s.env.Conf)
+	}()
+	c.Obs("print_schema_checked", 1)
+	s.schemaVerdict(stmts, "")
+	// what the real binary prints for `-print-schema` (shared-table scenarios: that is where the command line's own
+	// handling of the table set can differ from the configuration package's)
+	if !s.shared || len(c.Res.Violations) > 0 {
+		return
+	}
+	bin := shovelBinary()
+	if _, err := os.Stat(bin); err != nil {
+		c.Obs("print_schema_binary_not_built", 1)
+		return
+	}
+	dir, err := os.MkdirTemp("", "vc16bin")
+	if err != nil {
+		return
+	}
+	defer os.RemoveAll(dir)
+	cfile := filepath.Join(dir, "config.json")
+	if err := os.WriteFile(cfile, s.env.ConfJSON, 0o644); err != nil {
+		return
+	}
+	ctx, cancel := context.WithTimeout(context.Background(), 60*time.Second)
+	defer cancel()
+	cmd := exec.CommandContext(ctx, bin, "-config", cfile, "-print-schema")
+	cmd.Dir = dir
+	var out, errb bytes.Buffer
+	cmd.Stdout, cmd.Stderr = &out, &errb
+	if err := cmd.Run(); err != nil {
+		if ctx.Err() != nil {
+			c.Inconclusive("shovel -print-schema did not finish within 60 s")
+			return
+		}
+		s.violate("print-schema:binary-fails", map[string]any{"error": err.Error(), "output": tail(out.String()+errb.String(), 600)}, "shovel -print-schema failed on an accepted configuration: %v", err)
+		return
+	}
+	var printed []string
+	for _, st := range strings.Split(out.String(), ";") {
+		if st = strings.TrimSpace(st); st != "" {
+			printed = append(printed, strings.Join(strings.Fields(st), " "))
+		}
+	}
+	c.Obs("print_schema_binary_checked", 1)
+	s.schemaVerdict(printed, "binary:")
+}
+
+// schemaVerdict executes a printed schema on an empty database: every table exists with every column its
+// integrations write.
+func (s *c16Scen) schemaVerdict(stmts []string, kp string) {
+	c := s.c
 	pg, err := fakepg.New()
 	if err != nil {
 		c.Inconclusive("second server: %v", err)
@@ -669,16 +746,6 @@ func (s *c16Scen) printSchema() {
 		return
 	}
 	defer pool.Close()
-	var stmts []string
-	func() {
-		defer func() {
-			if r := recover(); r != nil {
-				s.violate("panic:config.DDL", map[string]any{"panic": fmt.Sprint(r)}, "config.DDL panicked: %v", r)
-			}
-		}()
-		stmts = config.DDL(s.env.Conf)
-	}()
-	c.Obs("print_schema_checked", 1)
 	mixed := false
 	for _, d := range s.decls {
 		mixed = mixed || hasMixedCase(d)
@@ -691,7 +758,7 @@ func (s *c16Scen) printSchema() {
 				c.Seen("print_schema_notes", "index statement before its column exists in a shared table")
 				continue
 			}
-			s.violate("print-schema:statement-fails:"+stt, map[string]any{"statement": st, "error": err.Error()}, "a statement of the printed schema fails: %s: %v", st, err)
+			s.violate(kp+"print-schema:statement-fails:"+stt, map[string]any{"statement": st, "error": err.Error()}, "a statement of the printed schema fails: %s: %v", st, err)
 			return
 		}
 	}
@@ -700,9 +767,9 @@ func (s *c16Scen) printSchema() {
 		pg.Read(func() { t = pg.TableByName("public." + g.Table.Name) })
 		if t == nil {
 			if mixed {
-				s.violate("ddl-copy-case-mismatch", map[string]any{"table": g.Table.Name, "schema": stmts}, "the printed schema creates table %q under a folded name; COPY addresses it quoted", g.Table.Name)
+				s.violate(kp+"ddl-copy-case-mismatch", map[string]any{"table": g.Table.Name, "schema": stmts}, "the printed schema creates table %q under a folded name; COPY addresses it quoted", g.Table.Name)
 			} else {
-				s.violate("print-schema:missing-table", map[string]any{"table": g.Table.Name, "schema": stmts}, "the printed schema does not create table %q", g.Table.Name)
+				s.violate(kp+"print-schema:missing-table", map[string]any{"table": g.Table.Name, "schema": stmts}, "the printed schema does not create table %q", g.Table.Name)
 			}
 			continue
 		}
@@ -711,10 +778,10 @@ func (s *c16Scen) printSchema() {
 				continue
 			}
 			if col.Name != strings.ToLower(col.Name) {
-				s.violate("ddl-copy-case-mismatch", map[string]any{"table": g.Table.Name, "column": col.Name, "schema": stmts}, "the printed schema creates column %q of %s under a folded name; COPY addresses it quoted", col.Name, g.Table.Name)
+				s.violate(kp+"ddl-copy-case-mismatch", map[string]any{"table": g.Table.Name, "column": col.Name, "schema": stmts}, "the printed schema creates column %q of %s under a folded name; COPY addresses it quoted", col.Name, g.Table.Name)
 				continue
 			}
-			s.violate("print-schema:missing-column", map[string]any{"table": g.Table.Name, "integration": g.Name, "column": col.Name, "table_columns": t.ColNames(), "schema": stmts},
+			s.violate(kp+"print-schema:missing-column", map[string]any{"table": g.Table.Name, "integration": g.Name, "column": col.Name, "table_columns": t.ColNames(), "schema": stmts},
 				"the printed schema of table %s lacks column %q which integration %s writes", g.Table.Name, col.Name, g.Name)
 		}
 	}
@@ -841,9 +908,13 @@ func c16Run(c *vk.Case) {
 			}
 		}
 	}
-	chain := c16Chain(r, decls, c16ABI)
+	emptyData := kind == "single" && c.Index%16 == 9 && decls[0].Mode() == model.ModeLog && len(refmodel.SelectedLeaves(decls[0].Inputs)) > 0
+	chain := c16Chain(r, decls, c16ABI, emptyData)
 	spec := c16Spec(r, decls, srcs, chain)
-	sc := &c16Scen{c: c, kind: kind, decls: decls, spec: spec, chain: chain, shared: kind == "shared"}
+	sc := &c16Scen{c: c, kind: kind, decls: decls, spec: spec, chain: chain, shared: kind == "shared", emptyData: emptyData}
+	if emptyData {
+		c.Obs("empty_data_log_scenarios", 1)
+	}
 	sig := func(extra string) {
 		var ms []string
 		for _, d := range decls {
